@@ -21,6 +21,10 @@
 //!     it): each is decoded and compared with ITS OWN source,
 //!   * rarely, more than 256 other distinct (tiny) pictures go through the handler between the
 //!     first draw of the views and their redraw, which must still be byte-identical.
+//! History of the THREAD: every case runs on a thread of its own; in 15 cases of 100 a wide
+//! picture with a distinct colour per pixel (more than 256 colours: dithered) is drawn first on
+//! ANOTHER handler of that thread (dropped or kept alive), then the views are drawn and held to
+//! the same oracle as always.
 
 use crate::engine::*;
 use proptest::collection::vec;
@@ -84,6 +88,22 @@ pub struct Case {
     /// once more
     #[serde(default)]
     pub long_history: Option<LongHistory>,
+    /// history of the thread: a wide many-colour picture drawn on ANOTHER handler before
+    /// anything else is drawn
+    #[serde(default)]
+    pub prelude: Option<PreludeDraw>,
+}
+
+/// A picture of `w` (clamped to 8..=400) columns x `h` (clamped to 6..=24) rows whose pixel i is
+/// 24 pseudo-random bits of (i, salt), opaque: practically one colour per pixel.  It is drawn on
+/// a handler of its own (with the same background) that is dropped right after the draw unless
+/// `keep`, before the views of the case are drawn on their handlers on the same thread.
+#[derive(Clone, Copy, Debug, PartialEq, Eq, Serialize, Deserialize)]
+pub struct PreludeDraw {
+    pub w: u16,
+    pub h: u8,
+    pub salt: u32,
+    pub keep: bool,
 }
 
 /// A picture with the row-major pixel sequence of view `of` (mod number of views) laid out in
@@ -790,7 +810,61 @@ fn draw(handler: &mut SixelImageHandler, img: &Image, ctx: &str) -> Result<Vec<u
     Ok(out)
 }
 
+/// Run `f` on a thread of its own (fresh thread-local state of the library).
+fn on_fresh_thread<T: Send>(f: impl FnOnce() -> T + Send) -> Result<T, Fail> {
+    std::thread::scope(|s| {
+        let h = std::thread::Builder::new()
+            .stack_size(32 << 20)
+            .name("c12-case".into())
+            .spawn_scoped(s, f)
+            .map_err(|e| Fail::new("inconclusive/cannot-spawn-thread", format!("{e}")))?;
+        h.join()
+            .map_err(|_| Fail::new("harness/case-thread-panicked", "the oracle itself panicked".to_string()))
+    })
+}
+
+fn prelude_pixels(p: PreludeDraw) -> Pixels {
+    let (w, h) = ((p.w as usize).clamp(8, 400), (p.h as usize).clamp(6, 24));
+    let px = (0..h * w)
+        .map(|i| {
+            let mut z = (i as u64)
+                .wrapping_add((p.salt as u64) << 32 | p.salt as u64)
+                .wrapping_add(0x9E37_79B9_7F4A_7C15);
+            z = (z ^ (z >> 30)).wrapping_mul(0xBF58_476D_1CE4_E5B9);
+            z = (z ^ (z >> 27)).wrapping_mul(0x94D0_49BB_1331_11EB);
+            z ^= z >> 31;
+            [z as u8, (z >> 8) as u8, (z >> 16) as u8, 255]
+        })
+        .collect();
+    Pixels { h, w, px }
+}
+
+/// The case's whole history is executed on a thread of its own, so whatever the library keeps
+/// per thread starts empty and the case is its complete history.
 pub fn check_case(c: &Case) -> Outcome {
+    let f = match on_fresh_thread(|| check_case_on_this_thread(c, true))? {
+        Ok(pass) => return Ok(pass),
+        Err(f) => f,
+    };
+    if c.prelude.is_none() || f.sig.starts_with("inconclusive/") || f.sig.starts_with("harness/") {
+        return Err(f);
+    }
+    // classification of a failure (never turns a pass into a failure): the same case without
+    // the draw on the other handler, on a fresh thread
+    match on_fresh_thread(|| check_case_on_this_thread(c, false))? {
+        Ok(_) => Err(Fail::new(
+            format!("thread-history/{}", f.sig),
+            format!(
+                "{} — without the earlier draw of another picture on ANOTHER handler of the same thread the whole case satisfies every clause: the output depends on what the thread drew before",
+                f.msg
+            ),
+        )),
+        Err(g) if g.sig.starts_with("inconclusive/") => Err(g),
+        Err(_) => Err(f),
+    }
+}
+
+fn check_case_on_this_thread(c: &Case, with_prelude: bool) -> Outcome {
     let base = materialize(c);
     let (h, w) = (base.h, base.w);
     let image = guard_val(|| {
@@ -838,6 +912,36 @@ pub fn check_case(c: &Case) -> Outcome {
     }
     if views.is_empty() {
         return Ok(Pass::new(false).label("no-views"));
+    }
+
+    // history of the thread: a wide many-colour picture on another handler
+    let mut prelude_note = String::new();
+    let mut kept_handler = None;
+    if let (true, Some(p)) = (with_prelude, c.prelude) {
+        let px = prelude_pixels(p);
+        let img = build_image(&px, None)?;
+        let exp = expect(&px, c.bg);
+        let ctx = format!(
+            "prelude picture {}x{} (w x h, pixel i = hash(i, salt {}), {} colours at 0-100 resolution) drawn first on a handler of its own",
+            px.w, px.h, p.salt, exp.colours
+        );
+        let mut h0 = SixelImageHandler::new(bg);
+        let bytes = draw(&mut h0, &img, &ctx)?;
+        check_draw(&bytes, &px, &exp, &ctx)?;
+        prelude_note = format!(
+            " [on this thread a {}x{} (w x h) picture of {} colours (salt {}) was drawn before on another handler, {}]",
+            px.w,
+            px.h,
+            exp.colours,
+            p.salt,
+            if p.keep { "still alive" } else { "already dropped" }
+        );
+        if p.keep {
+            kept_handler = Some(h0);
+        }
+    }
+    for v in views.iter_mut() {
+        v.ctx.push_str(&prelude_note);
     }
 
     // handler 1: every view once, then every view again
@@ -1025,6 +1129,8 @@ pub fn check_case(c: &Case) -> Outcome {
         check_draw(&bytes, &v.px, &v.exp, &ctx)?;
     }
 
+    drop(kept_handler);
+
     // classification
     let nontrivial = stats
         .iter()
@@ -1059,6 +1165,9 @@ pub fn check_case(c: &Case) -> Outcome {
         .label_if(shaped.iter().any(|s| s.exp.exact_regime()), "reshape:exact")
         .label_if(no_other_shape, "reshape:no-other-shape")
         .label_if(c.long_history.is_some_and(|lh| lh.fillers > 256), "history:long(>256-other-pictures-then-redraw)")
+        .label_if(with_prelude && c.prelude.is_some(), "thread-history:many-colour-picture-on-another-handler-first")
+        .label_if(with_prelude && c.prelude.is_some() && views[0].exp.exact_regime(), "thread-history+first-view-exact")
+        .label_if(with_prelude && c.prelude.is_some() && views[0].exp.exact_regime() && views[0].exp.colours >= 100, "thread-history+first-view-exact>=100-colours")
         .label_if(any(&|v| v.px.h % 6 != 0), "h%6!=0")
         .label_if(any(&|v| v.px.w < 4), "w<4")
         .label_if(stats.iter().any(|s| s.bands >= 2), "enc:bands>=2")
@@ -1270,6 +1379,15 @@ fn bg() -> BoxedStrategy<Option<[u8; 3]>> {
 /// Histories of the long-lived handler beyond redraw / erase+redraw: pictures with a view's
 /// pixel sequence in another shape (4 cases of 10), rarely a long run of other pictures
 /// before a redraw (3 cases of 100).
+fn prelude_draw() -> BoxedStrategy<Option<PreludeDraw>> {
+    proptest::option::weighted(
+        0.15,
+        (prop_oneof![4 => 44u16..=160, 1 => 8u16..=44], 6u8..=12, any::<u32>(), any::<bool>())
+            .prop_map(|(w, h, salt, keep)| PreludeDraw { w, h, salt, keep }),
+    )
+    .boxed()
+}
+
 fn extras() -> BoxedStrategy<(Vec<Reshape>, Option<LongHistory>)> {
     let reshape = (
         0u8..3,
@@ -1297,7 +1415,7 @@ fn case_strategy(tier: Tier) -> BoxedStrategy<Case> {
             (dims(tier, min), Just(bg), Just(palette))
         })
         .prop_flat_map(|((h, w), bg, palette)| {
-            (pattern(h, w, false), views(), proptest::option::weighted(0.25, prop_oneof![Just(0u16), 1u16..40, 40u16..3000]), extras()).prop_map(move |(pattern, views, refused_first, (reshapes, long_history))| Case {
+            (pattern(h, w, false), views(), proptest::option::weighted(0.25, prop_oneof![Just(0u16), 1u16..40, 40u16..3000]), extras(), prelude_draw()).prop_map(move |(pattern, views, refused_first, (reshapes, long_history), prelude)| Case {
                 h,
                 w,
                 bg,
@@ -1307,6 +1425,7 @@ fn case_strategy(tier: Tier) -> BoxedStrategy<Case> {
                 refused_first,
                 reshapes,
                 long_history,
+                prelude,
             })
         });
     // 256 opaque colours (distinct at 0-100 resolution) one of which is the reduced
@@ -1327,7 +1446,7 @@ fn case_strategy(tier: Tier) -> BoxedStrategy<Case> {
                 })
                 .collect();
             palette.push([hidden[0], hidden[1], hidden[2], 0]);
-            (pattern(h, w, true), views(), extras()).prop_map(move |(pattern, views, (reshapes, long_history))| Case {
+            (pattern(h, w, true), views(), extras(), prelude_draw()).prop_map(move |(pattern, views, (reshapes, long_history), prelude)| Case {
                 h,
                 w,
                 bg: Some(bg),
@@ -1337,6 +1456,7 @@ fn case_strategy(tier: Tier) -> BoxedStrategy<Case> {
                 refused_first: None,
                 reshapes,
                 long_history,
+                prelude,
             })
         });
     prop_oneof![12 => general, 1 => edge].boxed()
@@ -1382,7 +1502,7 @@ impl Property for C12 {
          special class: 256 colours one of which is both an opaque colour and the background showing through fully transparent pixels; bg in {None, colour}; \
          1..=3 views (full image, crop, crop of a crop; >= 6 rows, >= 1 column) drawn in order on one handler, all drawn a second time (bytes must be identical), \
          in 4 cases of 10 one or two further pictures are drawn on that handler between the first and the second draws of the views: the row-major pixel sequence of one of the views laid out in another shape (w' x h' with w'*h' = w*h, h' >= 6, any such shape; a fresh buffer, or in 4 of 10 a window cropped out of a buffer larger by 0-3 pixels per side), each decoded and compared with its own source, and on a further fresh handler the same pictures are drawn before the views they derive from; \
-         all views erased and drawn once more (bytes must equal the first draw), in 3 cases of 100 then 260-400 pairwise distinct filler pictures (1..3 columns x 6 rows, >= 2 colours, each held to the per-draw oracle) are drawn on that handler and every view is drawn yet again (bytes must still equal the first draw), three short-lived images of the first view's size (its pixels rotated by 0-2 rows, each a fresh allocation dropped after its draw) drawn on a third handler, and all views drawn in reverse order on a fresh handler (in one case of four each of those draws is preceded by a draw of the same view into a writer that fails after 0-2999 bytes). Every draw is decoded by an independent sixel interpreter and checked for well-formedness, declared size, \
+         all views erased and drawn once more (bytes must equal the first draw), in 3 cases of 100 then 260-400 pairwise distinct filler pictures (1..3 columns x 6 rows, >= 2 colours, each held to the per-draw oracle) are drawn on that handler and every view is drawn yet again (bytes must still equal the first draw), three short-lived images of the first view's size (its pixels rotated by 0-2 rows, each a fresh allocation dropped after its draw) drawn on a third handler, and all views drawn in reverse order on a fresh handler (in one case of four each of those draws is preceded by a draw of the same view into a writer that fails after 0-2999 bytes). Every case is executed on a thread of its own; in 15 cases of 100 the first thing drawn on that thread is a prelude picture of 44-160 (rarely 8-44) columns x 6-12 rows with a pseudo-random colour per pixel (more than 256 colours, hence dithered; held to the structural per-draw oracle) on ANOTHER handler (dropped after the draw or kept alive until the end), and only then the views are drawn as described. Every draw is decoded by an independent sixel interpreter and checked for well-formedness, declared size, \
          registers, full coverage, nothing outside, and pixel-exactness when colours fit. \
          non-trivial = some draw has >= 2 bands and >= 2 colours painted in one band and a repeat introducer with count >= 4 on a non-empty sixel"
             .into()
@@ -1399,6 +1519,7 @@ impl Property for C12 {
             "with more than 256 colours only structure (well-formedness, size, registers, coverage) is checked; closeness of the dithered picture is not part of the statement".into(),
             "the configured background is opaque in all generated cases".into(),
             "two pictures with the same row-major pixel sequence but different width/height are different images: each draw is held to the oracle of its own source (declared size = its own width x truncated height, decoded picture = its own arrangement), whatever was drawn on the handler before".into(),
+            "the statement quantifies over images and draws on one handler, not over what the calling thread did before: a draw must satisfy every clause whatever other handlers of the same thread have drawn earlier. Every case runs on a fresh thread, so the optional prelude draw is the complete earlier history; when a case with a prelude fails and the same case without the prelude passes on a fresh thread, the signature is prefixed with thread-history/ (classification only, evaluated after a clause has failed)".into(),
             "'drawing the same image again emits identical bytes' is taken over any history of the handler ('repeated draws on one handler'), in particular after an arbitrary number of other pictures were drawn in between; no bound on that number is stated, 260-400 is what is explored".into(),
         ]
     }
